@@ -31,7 +31,7 @@ R9 = Fraction(1, 10**9)
 # helpers
 # ----------------------------------------------------------------------------------------------------------------------
 
-PROP_MODULES = ['C20', 'C20Gen', 'C20GenFns']
+PROP_MODULES = ['C20', 'C20Gen', 'C20GenFns', 'C20GenFns2']
 
 def fmean(l):
     return sum(l, Fraction(0)) / len(l)
